@@ -90,6 +90,9 @@ PROFILES = {
         "mcT": [cfg(N=2, Kinds=ALLK, SendTos={4}, Amts={2, 4}, MaxExt=1, AwardTos={1}, BurnNums={1, 4}, MaxHeight=3, MaxTx=2, EvOn=True, EvPowers={1})],
         "sim": [cfg(N=3, GenBal=(9, 9, 9), GenVals=gv((1, 4), (2, 2)), MaxVals=2, UnstakeTime=2, Kinds=ALLK, SendTos={1, 5}, Amts={1, 2, 3, 4}, MaxExt=2,
                     AwardTos={1, 2, 5}, BurnNums={1, 2, 4}, Props={0, 1, 2}, MaxHeight=7, MaxTx=3, EvOn=True, MissOn=True, EvPowers={1, 2, 9}),
+                # the same read from an EXPORTED genesis (previous-state powers given)
+                cfg(N=3, GenBal=(9, 9, 9), GenVals=gv((1, 4), (2, 4), (3, 2, 1, False, 2)), GenExported=True, GenPrev=(2, 2, -1), MaxVals=3, UnstakeTime=2, Kinds={"stake", "unstake"}, Amts={2},
+                    MaxHeight=4, MaxTx=2, Dts={1}),
                 # a genesis with unstaking validators (one of them jailed), as an exported chain has
                 cfg(N=3, GenBal=(9, 9, 9), GenVals=gv((1, 4), (2, 2, 1, False, 2), (3, 2, 1, True, 1)), MaxVals=3, UnstakeTime=2, Kinds={"stake", "unstake", "unjail"}, Amts={2},
                     MaxHeight=5, MaxTx=2, Dts={1}, EvOn=True, EvPowers={1})],
@@ -169,7 +172,12 @@ PROFILES = {
         "mc": [cfg(N=2, Kinds=ALLK, SendTos={2}, Amts={2, 9}, MaxHeight=2, MaxTx=2, BadTxOn=True, GenVals=gv((1, 4)), MaxRO=1)],
         "sim": [cfg(N=3, GenBal=(9, 2, 0), GenVals=gv((1, 4)), MaxVals=2, Kinds=ALLK, SendTos={1, 2, 3}, Amts={0, 1, 2, 9}, MaxHeight=5, MaxTx=5, BadTxOn=True, MissOn=True, Window=1, MinSignedNum=1, MinSignedDen=1,
                     Fee=2, MaxRO=3),
-                cfg(N=2, GenBal=(9, 9), GenVals=gv((1, 4)), MaxVals=2, Kinds=ALLK, SendTos={1, 2, 4}, Amts={2, 4}, MaxHeight=5, MaxTx=3, BadTxOn=True, Fee=1, MaxRO=2, UnstakeTime=0)],
+                cfg(N=2, GenBal=(9, 9), GenVals=gv((1, 4)), MaxVals=2, Kinds=ALLK, SendTos={1, 2, 4}, Amts={2, 4}, MaxHeight=5, MaxTx=3, BadTxOn=True, Fee=1, MaxRO=2, UnstakeTime=0),
+                # governance raises the minimum stake above existing stakes mid-history, then those validators transact
+                cfg(N=3, GenBal=(9, 9, 9), GenVals=gv((1, 4), (2, 2)), MaxVals=3, Kinds={"setparam", "stake", "unstake", "unjail"}, ParamVals={2}, Amts={2, 3}, MaxHeight=4, MaxTx=4, Fee=1,
+                    UnstakeTime=1, MaxRO=1),
+                # governance changes the stake denomination to one nobody holds, then accounts try to stake
+                cfg(N=2, GenBal=(9, 9), GenVals=set(), MaxVals=2, Kinds={"setdenom", "stake", "send"}, SendTos={1, 2}, Amts={2, 4}, MaxHeight=3, MaxTx=4, Fee=1, MaxRO=1, Props={0})],
     },
 }
 
